@@ -1,6 +1,7 @@
 package checks
 
 import (
+	"sort"
 	"archive/zip"
 	"bytes"
 	"fmt"
@@ -363,7 +364,14 @@ func c19Run(c *core.Ctx) {
 		}
 	}
 	// (C) mimetype-first packages
+	// sorted: the units handed out by c.Next() must mean the same thing in every
+	// worker process (map iteration order differs from process to process)
+	var odfTypes []string
 	for t := range c19ODF {
+		odfTypes = append(odfTypes, t)
+	}
+	sort.Strings(odfTypes)
+	for _, t := range odfTypes {
 		if !c.Next() {
 			continue
 		}
